@@ -4,17 +4,39 @@ import (
 	"context"
 	"net/http"
 
+	"github.com/aukilabs/go-tooling/pkg/errors"
 	"github.com/aukilabs/go-tooling/pkg/logs"
 	hds "github.com/aukilabs/hagall-common/hdsclient"
 	httpcmn "github.com/aukilabs/hagall-common/http"
+	"github.com/golang-jwt/jwt/v4"
 	"golang.org/x/net/websocket"
 )
+
+// verifyUserAccessToken admits only what the discovery service issues to
+// users: a token signed with the secret of this server that names HDS as its
+// issuer and expires. The server signs its own identity with the same secret,
+// for the discovery service, and hands it to whoever asks for its health as
+// HDS does: that token verifies against the secret and is not an access token.
+func verifyUserAccessToken(hdsClient *hds.Client, token string) error {
+	if err := hdsClient.VerifyUserAuth(token); err != nil {
+		return err
+	}
+
+	var claims jwt.RegisteredClaims
+	if _, _, err := jwt.NewParser().ParseUnverified(token, &claims); err != nil {
+		return errors.New("parse token error").Wrap(err)
+	}
+	if claims.Issuer != "HDS" || claims.ExpiresAt == nil {
+		return errors.New("token is not a user access token")
+	}
+	return nil
+}
 
 func VerifyAuthToken(ctx context.Context, hdsClient *hds.Client) func(*websocket.Config, *http.Request) error {
 	return func(c *websocket.Config, r *http.Request) error {
 		token := httpcmn.GetUserTokenFromHTTPRequest(r)
 
-		if err := hdsClient.VerifyUserAuth(token); err != nil {
+		if err := verifyUserAccessToken(hdsClient, token); err != nil {
 			logs.WithClientID(r.Header.Get(httpcmn.HeaderPosemeshClientID)).Warn(err)
 			return err
 		}
@@ -27,7 +49,7 @@ func VerifyAuthTokenHandler(hdsClient *hds.Client, next http.HandlerFunc) func(h
 	return func(w http.ResponseWriter, r *http.Request) {
 		token := httpcmn.GetUserTokenFromHTTPRequest(r)
 
-		if err := hdsClient.VerifyUserAuth(token); err != nil {
+		if err := verifyUserAccessToken(hdsClient, token); err != nil {
 			logs.WithClientID(r.Header.Get(httpcmn.HeaderPosemeshClientID)).Warn(err)
 			w.WriteHeader(http.StatusUnauthorized)
 			return
